@@ -179,6 +179,13 @@ def iso_cases(defs, cases):
                     cases.append({"id": len(cases), "k": "iso", "tag": "similarity", "def": d["def"], "dir": dr, "origin": origin, "L": 1.0e6,
                                   "scale": m if dr == "F" else 1.0 / m, "tol": 1e-12})
                     n += 1
+    for d in defs:
+        for e, r in sorted(d.get("second") or []):
+            rr = [x * ARCSEC for x in r]
+            data = [[3513638.0, 778956.0, 5248216.0, float(e)], [-4052051.0, 4212836.0, -2545106.0, float(e)], [6378137.0, 0.0, 0.0, float(e)]]
+            cases.append({"id": len(cases), "k": "second", "tag": "second-order-inverse", "def": d["def"], "data": data,
+                          "r2": sum(x * x for x in rr)})
+            n += 1
     return n
 
 
@@ -248,7 +255,8 @@ def run(tier, seed):
             res.samples.append(cs[len(cs) // 2])
     res.assumptions = [
         "exact mode: the images of an orthogonal frame of 1000 km arms are orthogonal, of equal length (1 + ppm(t) 1e-6) L and right-handed to 1e-12 relative (the trigonometry itself is not computed by the specification)",
-        "not claimed, not compared: the second-order error of the small-angle inverse (only the fourth element is compared there), Molodensky",
+        "small-angle mode: inverse after forward leaves at most 1.001 |r(t)|^2 |x| + 1e-8 m (r(t) from the specification)",
+        "not claimed, not compared: Molodensky against the Helmert path (its published accuracy is not stated in the documentation)",
         "a dynamic definition without t_epoch: the documentation does not say it must be refused; only 'no panic' is required",
         "both spellings of one parameter group in one definition (x=.. together with translation=..) are not generated: precedence is undocumented",
         "unknown convention names are not generated; a convention given without rotations must be accepted and be inert (position_vector only)",
